@@ -821,12 +821,15 @@ def emit_all(src, emit, lean_str):
             return text, len(items)
         return go
 
+    triples = "List (String × String × String)"
     for lean, fn, cls, func, kinds, stop, props in ENTRIES:
-        emit(f"[{props}] {lean}", t_scan(lean, fn, cls, func, kinds, stop, ""))
+        emit(f"[{props}] {lean}", t_scan(lean, fn, cls, func, kinds, stop, ""), serves=tuple(props.split(",")),
+             defs_=[(lean, triples)])
     for cls, accs in IOS_ACCESSORS:
         for a in accs:
             lean = ios_lean_name(cls, a)
-            emit(f"[C19] {lean}", t_scan(lean, "models_cisco.py", cls, a, ALL, (), "C19: "))
+            emit(f"[C19] {lean}", t_scan(lean, "models_cisco.py", cls, a, ALL, (), "C19: "), serves=("C19",),
+                 defs_=[(lean, triples)])
 
     def t_cli_defaults():
         tree = src.tree("cli_script.py")
@@ -851,7 +854,8 @@ def emit_all(src, emit, lean_str):
                 f"def rxCliArgDefaults : List (String × String) :=\n  {lean_pairs(sorted(set(rows)), lean_str)}\n"
                 f"def rxCliGetattrDefaults : List (String × String) :=\n  {lean_pairs(sorted(set(g)), lean_str)}\n"), \
             {"options": len(rows), "getattr": len(g)}
-    emit("[C18] rxCliDefaults", t_cli_defaults)
+    emit("[C18] rxCliDefaults", t_cli_defaults, serves=("C18",),
+         defs_=[("rxCliArgDefaults", "List (String × String)"), ("rxCliGetattrDefaults", "List (String × String)")])
 
     def t_brace():
         tree = src.tree("ciscoconfparse2.py")
@@ -909,4 +913,7 @@ def emit_all(src, emit, lean_str):
                 f"def ppNestedExprIgnoreDefault : String := {lean_str(ig_default)}\n"
                 f"def ppParseAllDefault : String := {lean_str(repr(pa.default) if pa is not None else 'absent')}\n"), \
             {"pyparsing": pp.__version__, "calls": len(rows)}
-    emit("[C08] rxBrace", t_brace)
+    emit("[C08] rxBrace", t_brace, serves=("C08",),
+         defs_=[("rxBraceCalls", "List (String × String)"), ("ppPrintables", "String"), ("ppDefaultWhiteChars", "String"),
+                ("ppQuotedStringRegexes", "List String"), ("ppNestedExprIgnoreDefault", "String"),
+                ("ppParseAllDefault", "String")])
